@@ -47,6 +47,11 @@ func scenarioB(cfg hx.GCfg, P, M, S, c int, preSub bool, batch bool) *explore.Sc
 			if err := g.Publish("d", hx.Msg("decoy")); err != nil {
 				vs.Fail("publish-error", "decoy publish failed: %v", err)
 			}
+			// a Publish call without messages on a topic never used before (the deduplicating publisher decorator makes such
+			// calls when it has dropped a whole batch): nothing is published, and nothing else is affected
+			if err := g.Publish("never-used"); err != nil {
+				vs.Fail("publish-error", "Publish without messages failed: %v", err)
+			}
 			consume := func(s int) {
 				ch, err := g.Subscribe(ctx, "t")
 				if err != nil {
